@@ -3,7 +3,7 @@
    specification fails on an episode, the code says WHICH of the known mechanisms explains the failure (by
    re-running the model with the corresponding repairs); anything unexplained keeps the plain tag. *)
 From Coq Require Import ZArith List Bool Lia Arith.
-From RL4CO Require Import Base.Num Base.EnvSig Spec.MultiDepotPD Env.MDCPDP Env.MDCPDPDefs Harness.HEnv.
+From RL4CO Require Import Base.Num Base.EnvSig Spec.MultiDepotPD Env.MDCPDP Env.MDCPDPDefs Harness.HEnv Harness.HBook.
 Import ListNotations.
 Open Scope Z_scope.
 
@@ -137,3 +137,16 @@ Definition check_C05 := check_C05_with current_code.
 (* evaluated on every generated instance: inside the documented format? solvable? *)
 Definition check_wf (c : md_case) : Z :=
   (if md_wfb (c_inst c) then 0 else 1) + (if md_solvableb (c_inst c) then 0 else 2).
+
+(* ---------------------------------------------------------------- bookkeeping (C02 / C04, see Harness/HBook.v)
+   keys of the env's step output compared after every step, in this order:
+   i (= number of steps taken), current_node (= the action just taken), current_depot, current_carry,
+   available (bit j = node j), to_deliver (bit j = node j), current_length (one entry per depot),
+   arrivetime_record (one entry per node) *)
+Definition book_obs (s : md_st) : list Z :=
+  [Z.of_nat (stepi s); Z.of_nat (node s); Z.of_nat (depot s); carry s; bitsZ (avail s); bitsZ (todel s)] ++ lens s ++ arr s.
+Definition book_kinds : list nat := [1; 2; 0; 0; 0; 0]%nat.      (* the remaining entries have no model-free meaning *)
+Definition md_book := (md_inst * list Z * list Z * list (nat * list Z))%type.
+Definition check_book_with (CF : mdfix) (c : md_book) : Z :=
+  match c with (i, tols, o0, tr) => book_check (MDCPDP f32 CF) i book_obs book_kinds tols o0 tr end.
+Definition check_book := check_book_with current_code.
